@@ -1195,6 +1195,30 @@ def check_c12(tier, seed, log=print):
     srcs = [d.source('T%d' % i) for i, d in enumerate(alld)]
     caps = P.run_capture(srcs)
     nb = len(base)
+    # the acceptance clause, position by position (regex, token, skip in three spellings, subpattern used / unused / completed):
+    # a definition with a pattern written to match bytes that are not valid UTF-8 is refused as it stands (str input) and
+    # accepted once `utf8 = false` is added
+    import families as F
+    fam = [c for c in F.fam_c04() if not c['meta']['closed']]
+    hdr = F.HDR + '\n'
+    fsrc = [c['src'] for c in fam] + [c['src'].replace(hdr, hdr + '#[logos(utf8 = false)]\n', 1) for c in fam]
+    fcaps = P.run_capture(fsrc)
+    acc_stats = dict(cases=len(fam), refused_as_str=0, accepted_with_utf8_false=0)
+    for k, c in enumerate(fam):
+        a, b = fcaps[k], fcaps[k + len(fam)]
+        if a is None or b is None:
+            continue
+        if a.verdict == 'ACCEPT':
+            run.violation('nonutf8-accepted', dict(definition=c['src'], family=c['family'],
+                                                   what='a pattern written to match bytes that are not valid UTF-8 is accepted without utf8 = false'), key='c12acc|' + c['src'])
+        else:
+            acc_stats['refused_as_str'] += 1
+        if b.verdict != 'ACCEPT':
+            run.violation('bytes-mode-rejected', dict(definition=fsrc[k + len(fam)], family=c['family'], errors=b.errs[:2],
+                                                      what='the same definition with utf8 = false is refused'), key='c12rej|' + c['src'])
+        else:
+            acc_stats['accepted_with_utf8_false'] += 1
+    run.coverage['acceptance_by_mode'] = acc_stats
     pairs = [(i, i + nb) for i in range(nb) if caps[i].verdict == 'ACCEPT' and not caps[i].nodump]
     for (i, j) in pairs:
         if caps[j].verdict != 'ACCEPT':
